@@ -434,7 +434,7 @@ def gen_ann(rng: random.Random, depth: int, refs: list[Ann], allow_none_top=True
         if r < 0.72:
             return Ann("Any")
         if r < 0.82:
-            return Ann("literal", lits=rng.sample(["a", "b c", 1, 2, -3, True, False], rng.randrange(1, 4)))
+            return Ann("literal", lits=rng.sample(["a", "b c", 1, 2, -3, True, False, 'q"t', "b\\s"], rng.randrange(1, 4)))
         if r < 0.87 and tvs:
             return Ann("typevar", name=rng.choice(tvs))
         return Ann(rng.choice(BASE_ANN))
@@ -473,7 +473,9 @@ def gen_ann(rng: random.Random, depth: int, refs: list[Ann], allow_none_top=True
 
 
 LIT_DEFAULTS = [("1", 1), ("0", 0), ("-7", -7), ("1.5", 1.5), ("-2.25", -2.25), ("'txt'", "txt"), ('"a b"', "a b"), ("True", True),
-                ("False", False), ("None", None), ("12345678901234567890", 12345678901234567890), ("''", "")]
+                ("False", False), ("None", None), ("12345678901234567890", 12345678901234567890), ("''", ""),
+                ("'say \"hi\"'", 'say "hi"'), ("'C:\\\\dir\\\\'", "C:\\dir\\"), ("'two\\nlines'", "two\nlines"), ("'tab\\there'", "tab\there"),
+                ("'*/ end'", "*/ end")]
 
 
 def ann_for_default(v) -> Ann:
@@ -631,6 +633,8 @@ def gen_func(rng, names: Names, refs, tvs, *, private=False, deco="plain", docs=
             f.ret = gen_ann(rng, 2, refs, tvs=tvs if has_tv else None)
     if docs and rng.random() < 0.6:
         f.doc = f"Doc of {f.name}. Line one."
+        if rng.random() < 0.15:
+            f.doc += f" Reads src/*/{f.name}.txt and **/ too."      # comment terminators inside the text
         if rng.random() < 0.4:
             f.doc += f"\n\nSecond paragraph of {f.name}."
     if doc_types:
@@ -708,7 +712,7 @@ def gen_class(rng, names: Names, refs, tvs, *, private=False, depth=1, docs=True
     if depth > 0 and rng.random() < 0.3:
         c.inner.append(gen_class(rng, names, refs, tvs, private=rng.random() < 0.25, depth=depth - 1, docs=docs, doc_types=doc_types))
     if docs and rng.random() < 0.6:
-        c.doc = f"Doc of class {c.name}."
+        c.doc = f"Doc of class {c.name}." + (" Matches */ and /* as well." if rng.random() < 0.15 else "")
     return c
 
 
@@ -732,7 +736,7 @@ def gen_package(rng: random.Random, idx: int, *, style="plaintext", nmods=3, ree
         mname = names.fresh("mod", private_mod)
         m = Module(f"{d}/{mname}.py", f"{dd}.{mname}")
         if docs and rng.random() < 0.5:
-            m.doc = f"Module doc of {mname}."
+            m.doc = f"Module doc of {mname}." + (" Covers */ and lib/*/x." if rng.random() < 0.15 else "")
         if rng.random() < 0.4:
             m.constants.append((f"CONST_{names.num()}{tag}".upper(), "1", f"Doc of a constant in {mname}." if rng.random() < 0.7 else None))
         # type variables: the same name in every module of the package on half of the packages
